@@ -15,6 +15,8 @@ import NV.C16.ProofObject
 import NV.C16.Tree
 import NV.C16.ProofTree
 import NV.C16.ProofHash
+import NV.C16.Globals
+import NV.C16.ProofVersion
 
 namespace NV.C16.Props
 
@@ -32,6 +34,11 @@ theorem size_bounds_output (F : FloatOps α) (d : Nat) (v : Value α) (n : Nat) 
 /-- hence `save_variable` never writes outside its allocation -/
 theorem saveVariable_no_crash (F : FloatOps α) (v : Value α) : saveVariable F v ≠ SaveOut.crash :=
   NV.C16.saveVariable_no_crash F v
+
+/-- what the efun save_variable returns is the text `save_svalue` writes and never longer than MaxStringLength (the size
+test `theSize - 1 > MaxStringLength` stands in front of the allocation — regenerated site `save_variable-limit`) -/
+theorem saveVariableEfun_ok (F : FloatOps α) (v : Value α) (t : List Nat) (h : saveVariableEfun F v = SaveEfunOut.ok t) :
+    t = save F v ∧ t.length ≤ maxStringLength := NV.C16.saveVariableEfun_ok F v t h
 
 /-- ... nor does any variable buffer of `save_object` -/
 theorem saveObject_no_crash (F : FloatOps α) (vars : List (Var α)) : saveObjectCrash F vars = false :=
@@ -244,6 +251,23 @@ theorem object_roundtrip_noclear (F : FloatOps α) (mb : MbLen) (prog : List Nat
       ObjRestoredNC F z vars live res :=
   NV.C16.object_roundtrip_noclear F mb prog z vars live hprog hs hf hdp hlay
 
+/-- **restore_object into another version of the program** (variables renamed / removed / added / reordered, made
+static ("nosave") or non-static, moved into or out of an inherited program — `cur` is ANY variable table with pairwise
+different names; with `restoreObjectT_flat` the flat tables are the `slots` of the two program trees): the efun returns 1
+without an error and leaves in every variable of the restoring object exactly `After` (ProofVersion.lean): a non-static
+variable whose name has a line in the file (`written`: the non-static variables of the saving program, those with the
+text "0" only with save_zeros) holds that saved value up to `Equiv`; every other variable — static ones, names the file
+does not have — is what it was when the lines were read (its live value with the no-clear flag, else 0 for a
+non-static one); lines of unknown or static names are skipped.  Declared types play no part. -/
+theorem restore_into_another_program_version (F : FloatOps α) (mb : MbLen) (prog : List Nat) (z nc : Bool)
+    (ss live : List (Var α)) (hprog : ∀ b ∈ prog, b ≠ 10 ∧ b ≠ 0) (hs : objSavable ss = true)
+    (hf : ∀ v ∈ ss, v.isStatic = false → FloatsOK F v.val)
+    (hdp : ∀ v ∈ ss, v.isStatic = false → saveVariable F v.val ≠ SaveOut.tooDeep)
+    (hlive : (live.map (·.name)).Nodup) :
+    ∃ res, restoreObject F mb nc (some (saveFileText F prog z ss)) live = (1, RoOut.done res) ∧
+      Rel2 (After F (written F z ss)) (if nc then live else live.map clearVar) res :=
+  NV.C16.restoreObject_other_version F mb prog z nc ss live hprog hs hf hdp hlive
+
 /-! ## bridging lemmas over the REGENERATED source facts (NV/Gen/C16.lean): a changed C line breaks these -/
 
 /-- the additive constants in the return statements of `svalue_save_size` cover what `save_svalue` writes -/
@@ -338,6 +362,42 @@ variable cursor, and the writing run follows the header -/
 theorem nesting_and_dry_run_sites_as_modelled :
     NV.Gen.C16.nestingSitesAsModelled = true ∧ NV.Gen.C16.restoreSizeNestingArg = 1 + 1 ∧
     NV.Gen.C16.dryRunSitesAsModelled = true := by decide
+
+/-! ### state shared between calls (Globals.lean) -/
+
+/-- **No entry point of the restore sees the shared state it is entered with.**  Whatever an earlier save or restore
+that ended in an LPC error left in `save_svalue_depth` and `save_svalue_sizes` (`g` arbitrary), restore_svalue /
+safe_restore_svalue — hence restore_variable and restore_object with either flag — yield what they yield on a fresh
+driver.  (`restoreTextFrom` is the code without its first statement: `Witness.stale_counter_without_reset`.) -/
+theorem restore_ignores_stale_state (F : FloatOps α) (mb : MbLen) (g : G) (t : List Nat) :
+    restoreSvalueG F mb g t = restoreSvalue F mb t := NV.C16.restore_ignores_stale_state F mb g t
+
+/-- ... nor does any entry point of the save (save_variable, every variable of save_object) -/
+theorem save_ignores_stale_state (F : FloatOps α) (g : G) (v : Value α) : saveSizeG F g v = saveSize F 0 v :=
+  NV.C16.save_ignores_stale_state F g v
+
+/-- the reset `save_svalue_depth = 0` IS the first statement of restore_svalue and of safe_restore_svalue, every
+top-level dispatch to restore_array / restore_mapping / restore_class sits in one of the two, every outer call of
+svalue_save_size is directly preceded by the reset (REGENERATED); and the file-scope variables the save / restore code
+shares between calls are exactly the three `G` abstracts (`nm` on the objects of this build; a new one the code
+mentions breaks the tie `file-scope-state/<name>`) -/
+theorem reset_sites_as_modelled :
+    NV.Gen.C16.resetSitesAsModelled = true ∧
+    ((NV.Gen.C16.fileScopeState.filter (fun x => x.2.2 == "protocol")).map (fun x => x.2.1)) =
+      ["save_max_depth", "save_svalue_depth", "save_svalue_sizes"] := by decide
+
+/-- **The capacity loops of the size table end and make room** (`while (save_max_depth <= depth) save_max_depth <<= 1`
+for a fresh table, `while ((save_max_depth <<= 1) <= depth)` for an allocated one — the second doubles BEFORE it tests),
+for every index, from every state that satisfies `TabInv` (an allocated table has a capacity > 0), which the release block
+(`release_inv`), both loops and an `error()` in between all keep.  `Witness.zero_capacity_with_a_table_never_ends`: from
+(allocated, capacity 0) the second loop does not end. -/
+theorem size_table_capacity_ok (t : Tab) (depth : Nat) (hi : TabInv t) :
+    ∃ t', ensure t depth (depth + 1) = some t' ∧ t'.alloc = true ∧ depth < t'.cap ∧ TabInv t' :=
+  NV.C16.ensure_ok t depth hi
+
+/-- the statements of that protocol read as modelled (REGENERATED): allocation and growth in both closing branches of
+restore_internal_size, the entry written after them, pointer and capacity reset TOGETHER in both entry points -/
+theorem table_sites_as_modelled : NV.Gen.C16.tableSitesAsModelled = true ∧ 0 < NV.Gen.C16.sizeTableInitial := by decide
 
 /-! ### what the restore functions dispatch on -/
 
